@@ -16,12 +16,16 @@ func init() {
 			ID: "C02", Title: "Best-path and ECMP selection do not depend on arrival order", Level: "proof",
 			Technique:   "comparator lexicographic-normal-form check on the typed AST (sufficient condition: total preorder), ECMP-key ⊆ decision-key check, type-agreement gate, must-pass-through PathSelection on go/cfg",
 			DesignRef:   "DESIGN.md §3 R-CMP, §4 C02",
-			Decided:     "(1) Path.Select, BGPPath.Select, StaticPath.Select, FIBPath.Select and net.IP.Compare are in lexicographic normal form (every step two mirrored tests on a key of one operand, no step under a guard, final return 0 / mirrored tail call) — by the theorem in engine/core/cmp.go the preference relation is then a total preorder, antisymmetric in sign, with ties exactly between paths equal on all decision keys, so the sorted order of equivalence classes is a function of the set of paths; (2) every key of BGPPath.ECMP / FIBPath.ECMP is a decision key of the corresponding Select, so the counted leading run cannot depend on the order of tied paths; (3) Path.ECMP/Select/Compare/Equal establish p.Type == q.Type before handing q's type-specific part to a type-specific method; (4) in LocRIB.AddPath/RemovePath/ReplacePath every path from the table mutation to propagateChanges passes PathSelection, and the less-function of PathSelection is `Select(i,j) == 1`; (5) the identity relation behind removals (Path.Compare/Equal and everything they reach): every elementwise comparison loop is covered by a test that both sequences have the same length (dominating the loop, conjoined in the later returns, or dominating every call site of a helper taking both sequences), so a sequence that is a proper prefix of another is never \"the same path\"; every such function reads the same fields on both operands (no field compared with itself).",
+			Decided:     "(1) Path.Select, BGPPath.Select, StaticPath.Select, FIBPath.Select and net.IP.Compare are in lexicographic normal form (every step two mirrored tests on a key of one operand, no step under a guard, final return 0 / mirrored tail call) — by the theorem in engine/core/cmp.go the preference relation is then a total preorder, antisymmetric in sign, with ties exactly between paths equal on all decision keys, so the sorted order of equivalence classes is a function of the set of paths; (2) every key of BGPPath.ECMP / FIBPath.ECMP is a decision key of the corresponding Select, so the counted leading run cannot depend on the order of tied paths; (3) Path.ECMP/Select/Compare/Equal establish p.Type == q.Type before handing q's type-specific part to a type-specific method; (4) in LocRIB.AddPath/RemovePath/ReplacePath every path from the table mutation to propagateChanges passes PathSelection, and the less-function of PathSelection is `Select(i,j) == 1`; (4b) the less function of PathSelection indexes the very slice handed to sort.Slice, which is (or is swapped in as) the route's path list, and updateEqualPathCount stops counting at the first neighbouring pair that is not ECMP-equal (no increment reachable from the false outcome of the test): the equal-cost set is the leading run; (5) the identity relation behind removals (Path.Compare/Equal and everything they reach): every elementwise comparison loop is covered by a test that both sequences have the same length (dominating the loop, conjoined in the later returns, or dominating every call site of a helper taking both sequences), so a sequence that is a proper prefix of another is never \"the same path\"; every such function reads the same fields on both operands (no field compared with itself).",
 			NotDecided:  "correctness of sort.Slice (trusted); that attribute values are what the wire carried.",
 			TrustedBase: append([]string{"theorem: a comparator in lexicographic normal form is a total preorder (proof in engine/core/cmp.go)", "sort.Slice sorts correctly for a strict weak order"}, stdTrusted...),
 		},
 		Run: runC02,
 		Controls: []Control{
+			{Name: "ecmp-count-does-not-stop", File: "route/route.go", Old: "\t\tif !r.paths[i].ECMP(r.paths[i+1]) {\n\t\t\tbreak\n\t\t}\n\t\tcount++\n", New: "\t\tif r.paths[i].ECMP(r.paths[i+1]) {\n\t\t\tcount++\n\t\t}\n", Expect: "ecmp-set-is-leading-run"},
+			{Name: "refactor-ecmp-count-in-loop-header", Silent: true, File: "route/route.go", Old: "\tfor i := 0; i < len(r.paths)-1; i++ {\n\t\tif !r.paths[i].ECMP(r.paths[i+1]) {\n\t\t\tbreak\n\t\t}\n\t\tcount++\n\t}\n", New: "\tfor i := 0; i < len(r.paths)-1 && r.paths[i].ECMP(r.paths[i+1]); i++ {\n\t\tcount++\n\t}\n"},
+			{Name: "less-indexes-the-unsorted-slice", File: "route/route.go", Old: "\tsort.Slice(r.paths, func(i, j int) bool {\n\t\treturn r.paths[i].Select(r.paths[j]) == 1\n\t})\n", New: "\tsorted := make([]*Path, len(r.paths))\n\tcopy(sorted, r.paths)\n\tsort.Slice(sorted, func(i, j int) bool {\n\t\treturn r.paths[i].Select(r.paths[j]) == 1\n\t})\n\tr.paths = sorted\n", Expect: "selection-before-propagation"},
+			{Name: "refactor-sort-a-copy", Silent: true, File: "route/route.go", Old: "\tsort.Slice(r.paths, func(i, j int) bool {\n\t\treturn r.paths[i].Select(r.paths[j]) == 1\n\t})\n", New: "\tsorted := make([]*Path, len(r.paths))\n\tcopy(sorted, r.paths)\n\tsort.Slice(sorted, func(i, j int) bool {\n\t\treturn sorted[i].Select(sorted[j]) == 1\n\t})\n\tr.paths = sorted\n"},
 			{Name: "source-compared-with-itself", File: "route/bgp_path.go", Old: "\tif b.Source.Compare(c.Source) != 0 {", New: "\tif b.Source.Compare(b.Source) != 0 {", Expect: "identity-reads-both-operands"},
 			{Name: "cluster-list-equality-without-length", File: "route/bgp_path.go", Old: "\tif len(*b.ClusterList) != len(*c.ClusterList) {\n\t\treturn false\n\t}\n", New: "", Expect: "identity-compares-whole-sequences"},
 			{Name: "refactor-equality-length-checked-last", Silent: true, File: "route/bgp_path.go", Old: "\tif len(*b.ClusterList) != len(*c.ClusterList) {\n\t\treturn false\n\t}\n\n\tfor i := range *b.ClusterList {\n\t\tif (*b.ClusterList)[i] != (*c.ClusterList)[i] {\n\t\t\treturn false\n\t\t}\n\t}\n\n\treturn true\n", New: "\tfor i := range *b.ClusterList {\n\t\tif i >= len(*c.ClusterList) || (*b.ClusterList)[i] != (*c.ClusterList)[i] {\n\t\t\treturn false\n\t\t}\n\t}\n\n\treturn len(*b.ClusterList) == len(*c.ClusterList)\n"},
@@ -83,6 +87,7 @@ func analyseComparators(c *core.Ctx) *cmpSet {
 func runC02(c *core.Ctx) {
 	p := c.P
 	identityEquality(c)
+	ecmpLeadingRun(c)
 	identityOperandCoverage(c, "identity-reads-both-operands")
 	cs := analyseComparators(c)
 	c.Floor("cmp-normal-form", 20)
@@ -285,6 +290,8 @@ func selectionBeforePropagation(c *core.Ctx, rule string, floor int) {
 	// PathSelection: less(i,j) := paths[i].Select(paths[j]) == 1 and then updateEqualPathCount
 	ok := false
 	var lessPos token.Pos = sel.Decl.Pos()
+	var lessSlices []ast.Expr
+	var lessLit *ast.FuncLit
 	ast.Inspect(sel.Decl.Body, func(n ast.Node) bool {
 		fl, isLit := n.(*ast.FuncLit)
 		if !isLit || len(fl.Body.List) != 1 {
@@ -323,10 +330,41 @@ func selectionBeforePropagation(c *core.Ctx, rule string, floor int) {
 		if okx2 && oky && core.ObjOf(sel.Pkg, ix.Index) == i0 && core.ObjOf(sel.Pkg, iy.Index) == i1 && i0 != nil {
 			ok = true
 			lessPos = ret.Pos()
+			lessSlices = []ast.Expr{ix.X, iy.X}
+			lessLit = fl
 		}
 		return true
 	})
 	c.Check(ok, rule, "route.(*Route).PathSelection less is Select(i,j)==1", lessPos, "PathSelection's less function is not `paths[i].Select(paths[j]) == 1`")
+	// the less function indexes the very slice that is being sorted (sort.Slice calls it with indices into THAT slice while
+	// it permutes it), and the sorted slice is the route's path list
+	if ok {
+		pathsF := p.Field("route", "Route", "paths")
+		sameSlice, isPaths := false, false
+		ast.Inspect(sel.Decl.Body, func(n ast.Node) bool {
+			call, isCall := n.(*ast.CallExpr)
+			if !isCall || len(call.Args) != 2 || core.FuncKey(core.Callee(sel.Pkg, call)) != "sort.Slice" || core.Unparen(call.Args[1]) != ast.Expr(lessLit) {
+				return true
+			}
+			sorted := core.Unparen(call.Args[0])
+			sameSlice = core.SameExpr(sel.Pkg, sorted, core.Unparen(lessSlices[0])) && core.SameExpr(sel.Pkg, sorted, core.Unparen(lessSlices[1]))
+			if core.FieldOf(sel.Pkg, sorted) == pathsF && pathsF != nil {
+				isPaths = true
+			} else if o := core.ObjOf(sel.Pkg, sorted); o != nil {
+				// a copy that is swapped in afterwards
+				ast.Inspect(sel.Decl.Body, func(m ast.Node) bool {
+					if as, isAs := m.(*ast.AssignStmt); isAs && len(as.Lhs) == 1 && len(as.Rhs) == 1 && as.Pos() > call.End() &&
+						core.FieldOf(sel.Pkg, as.Lhs[0]) == pathsF && core.ObjOf(sel.Pkg, as.Rhs[0]) == o {
+						isPaths = true
+					}
+					return true
+				})
+			}
+			return true
+		})
+		c.Check(sameSlice && isPaths, rule, "route.(*Route).PathSelection compares elements of the slice it sorts", lessPos,
+			"the less function indexes a different slice than the one handed to sort.Slice (or the sorted slice never becomes the route's path list): the indices refer to positions in the slice being permuted, so the comparisons are between the wrong paths as soon as three or more paths are sorted — the resulting order depends on the arrival order")
+	}
 	c.Check(len(core.Calls(sel.Pkg, sel.Decl.Body, core.KeyIs("route.(*Route).updateEqualPathCount"))) == 1, rule, "route.(*Route).PathSelection recounts ECMP", sel.Decl.Pos(), "PathSelection does not recompute the equal-cost path count after sorting")
 }
 
